@@ -338,6 +338,16 @@ func (w *World) ap(v ssa.Value, depth int) string {
 		return w.ap(x.X, depth+1) + ".(" + types.TypeString(x.AssertedType, shortQual) + ")"
 	case *ssa.FreeVar:
 		return "free:" + x.Name()
+	case *ssa.Select:
+		var parts []string
+		for _, st := range x.States {
+			dir := "<-"
+			if st.Dir == types.SendOnly {
+				dir = "->"
+			}
+			parts = append(parts, dir+w.ap(st.Chan, depth+1))
+		}
+		return "select(" + strings.Join(parts, ";") + ")"
 	case *ssa.MakeSlice:
 		return "make@" + x.Name()
 	case *ssa.MakeMap:
